@@ -274,28 +274,90 @@ Proof.
   - apply forall2b_map. intro x. apply bytes_eqb_refl.
 Qed.
 
-Lemma err_ok_model dt o out : match o with OpMatch ps => join_sp ps <> [] | _ => True end ->
-  err_ok dt (op_err dt o out) out = true.
+(* the cases in which the model reports no error beyond the usage error *)
+Definition clean (dt : dtype) (strict : bool) (o : op) (xs : list bytes) : bool :=
+  let r := run dt strict o xs in
+  match o with
+  | OpMatch ps => is_nil (join_sp ps) || (negb (o_err r) && negb (o_err2 r))
+  | _ => negb (o_err r)
+  end.
+
+Lemma clean_str strict o xs : clean DStr strict o xs = true.
 Proof.
-  intro G. unfold err_ok, op_err.
-  destruct o; destruct dt; try reflexivity; try (destruct out; reflexivity).
-  - destruct (join_sp ps); [congruence|]. reflexivity.
-  - destruct (join_sp ps); [congruence|]. destruct out; reflexivity.
+  unfold clean, run. destruct o; cbn [o_err o_err2 op_err]; try reflexivity.
+  destruct (is_nil (join_sp ps)); reflexivity.
 Qed.
 
-Theorem model_meets_spec dt o xs :
-  spec_ok {| c_dt := dt; c_op := o; c_in := xs; c_obs := run dt o xs |} = true.
+(* for json the only errors are empty result lists *)
+Lemma clean_json_nonempty strict o xs :
+  is_nil (fst (apply_op o xs)) = false ->
+  (match o with OpMatch _ => is_nil (snd (apply_op o xs)) = false | _ => True end) ->
+  clean DJson strict o xs = true.
 Proof.
-  unfold spec_ok. cbn [c_dt c_op c_in c_obs].
+  intros H1 H2. unfold clean, run. cbn [in_elems].
+  destruct o; cbn [o_err o_err2 op_err]; rewrite ?H1, ?H2; cbn; try reflexivity.
+  destruct (is_nil (join_sp ps)); reflexivity.
+Qed.
+
+Theorem model_meets_spec dt strict o xs : clean dt strict o xs = true ->
+  spec_ok {| c_dt := dt; c_strict := strict; c_op := o; c_in := xs; c_obs := run dt strict o xs |} = true.
+Proof.
+  unfold clean, spec_ok. cbn [c_dt c_op c_in c_obs].
   set (ys := in_elems dt xs).
-  destruct o as [| |ps|ps|ps|n|n|ps|ps]; unfold run; fold ys; cbv zeta; cbn [o_err o_out o_err2 o_out2].
+  destruct o as [| |ps|ps|ps|n|n|ps|ps]; unfold run; fold ys; cbv zeta; cbn [o_err o_out o_err2 o_out2]; intro C.
   5: { (* OpMatch *)
     destruct (join_sp ps) as [|c pat] eqn:J.
     - cbn [apply_op]. rewrite J. cbn [fst snd is_nil]. unfold op_err. rewrite J. reflexivity.
     - assert (G : join_sp ps <> []) by (rewrite J; discriminate).
-      cbn [is_nil]. rewrite (spec_elems_model (OpMatch ps) ys G). cbn [andb].
-      rewrite !(err_ok_model dt (OpMatch ps) _ G). reflexivity. }
+      cbn [is_nil orb] in C |- *. rewrite (spec_elems_model (OpMatch ps) ys G). cbn [andb]. exact C. }
   all: match goal with |- context [apply_op ?o ?ys] =>
-         pose proof (spec_elems_model o ys I) as S; cbn [apply_op fst snd] in S |- *;
-         rewrite S; cbn [andb]; apply (err_ok_model dt o _ I) end.
+         pose proof (spec_elems_model o ys I) as S; cbn [apply_op fst snd] in S, C |- *;
+         rewrite S; cbn [andb]; exact C end.
 Qed.
+
+(* every case the guard excludes is exactly known finding 1 *)
+Theorem unclean_is_finding dt strict o xs : clean dt strict o xs = false ->
+  spec_ok {| c_dt := dt; c_strict := strict; c_op := o; c_in := xs; c_obs := run dt strict o xs |} = false /\
+  classify {| c_dt := dt; c_strict := strict; c_op := o; c_in := xs; c_obs := run dt strict o xs |} = 1%N.
+Proof.
+  destruct dt; [rewrite clean_str; discriminate|].
+  unfold clean, spec_ok, classify. cbn [c_dt c_op c_in c_obs in_elems].
+  destruct o as [| |ps|ps|ps|n|n|ps|ps]; unfold run; cbn [in_elems]; cbv zeta; cbn [o_err o_out o_err2 o_out2]; intro C.
+  5: { destruct (join_sp ps) as [|c pat] eqn:J; [discriminate|].
+       assert (G : join_sp ps <> []) by (rewrite J; discriminate).
+       cbn [is_nil orb negb andb] in *. rewrite (spec_elems_model (OpMatch ps) xs G). cbn [andb].
+       unfold op_err in *. rewrite J in *. cbn [is_nil orb] in *.
+       destruct (is_nil (fst (apply_op (OpMatch ps) xs))); destruct (is_nil (snd (apply_op (OpMatch ps) xs)));
+         cbn in *; try discriminate; split; reflexivity. }
+  all: match goal with |- context [fst (apply_op ?o ?ys)] =>
+         pose proof (spec_elems_model o ys I) as S;
+         change (snd (apply_op o ys)) with (@nil bytes) in S;
+         generalize dependent (fst (apply_op o ys)); intros out C S end.
+  all: rewrite S; unfold op_err, json_empty_err in *; destruct out; try (destruct strict);
+       cbn in *; try discriminate; split; reflexivity.
+Qed.
+
+(* F38-1: `%[a,b] -> match x` (json) reports "no data returned" instead of [] *)
+Lemma empty_result_refuted :
+  clean DJson true (OpMatch [[120%N]]) [[97%N]; [98%N]] = false /\
+  o_out (run DJson true (OpMatch [[120%N]]) [[97%N]; [98%N]]) = [] /\
+  o_err (run DJson true (OpMatch [[120%N]]) [[97%N]; [98%N]]) = true.
+Proof. vm_compute. auto. Qed.
+
+(* match and !match together keep every element: counts add up *)
+Lemma match_count ps xs : join_sp ps <> [] ->
+  (length (fst (apply_op (OpMatch ps) xs)) + length (snd (apply_op (OpMatch ps) xs)) = length xs)%nat.
+Proof.
+  intro NE. destruct (match_partition ps xs NE) as (M & _). symmetry. apply merge_length. exact M.
+Qed.
+
+Lemma msort_count xs : length (fst (apply_op OpMsort xs)) = length xs.
+Proof. apply Permutation_length, isort_perm. Qed.
+
+Lemma mtac_count xs : length (fst (apply_op OpMtac xs)) = length xs.
+Proof. apply rev_length. Qed.
+
+Lemma pend_count ps xs :
+  length (fst (apply_op (OpPrepend ps) xs)) = (length ps + length xs)%nat /\
+  length (fst (apply_op (OpAppend ps) xs)) = (length xs + length ps)%nat.
+Proof. cbn [apply_op fst]. rewrite !app_length. auto. Qed.
